@@ -13,15 +13,28 @@
      the erased documents (`run_dom (map (map erase_v) vdocs) = Some e`).
    * hypotheses: those of C01 (documents non-empty, well-formed `wf_vnode` = attribute names of
      an element pairwise distinct, common root name, `clash_free_tree e`, `names_plain e`) plus
-     `data_oriented` (hereditarily: an element that has a child element has no non-blank
-     character data; consequently every element has at most one run of character data,
-     C02_data_oriented_runs).  Needed: C02_needs_data_oriented.
+     `data_oriented` (the property's own: hereditarily, an element that has a child element has
+     only blank character data, Text or CDATA; C02_data_oriented_reading) plus "outside the
+     known class K3" (`known_k3_b v = false`, C02_known_k3_reading).  Needed:
+     C02_needs_data_oriented, C02_known_k3_witness.
+   * THE KNOWN FINDING K3 (quick_xml::de only; known_findings.json K3): quick_xml::de never trims
+     CDATA, so blank or empty CDATA sections beside child elements are delivered as text: the
+     key `$text` arrives twice or a text lands inside a list, and a document that is
+     data-oriented in the property's sense is rejected.  `known_k3_b v`: somewhere in v an
+     element (not in the empty form) has both a child element and a CDATA section.
+     C02_known_k3_witness: <a><![CDATA[ ]]><b/><![CDATA[ ]]></a> is rejected.
+   * what the proofs use is `no_text_beside vb` (an element that has a child element delivers
+     no character data to the reader; vb = `fl_verbatim` of the flavour; consequently every
+     element has at most one run, C02_data_oriented_runs).  C02_data_oriented_qx: it follows
+     from `data_oriented` outside K3; C02_data_oriented_sx: for serde-xml-rs (which trims CDATA
+     too) it follows from `data_oriented` alone.
    * C02_accepts: accepted, for deny = false and deny = true (deny_unknown_fields).
    * C02_holds_all: every attribute value and every trimmed character-data run of the document
-     (`doc_values`) is among the string leaves of the value.
+     (`doc_values true`: as quick_xml::de delivers it) is among the string leaves of the value.
    * C02_accepts_tree: the same for any document whose root the tree admits (`TreeAdmits`, C01).
    * C02_core: the underlying theorem for any flavour / options whose key spaces are apart
-     (`KeysOK`); `held keep st x v` (read by C02_held_reading) is what the value is shown to hold.
+     (`KeysOK`) under `no_text_beside (fl_verbatim fl)`; `held vb keep st x v` (read by
+     C02_held_reading) is what the value is shown to hold.
    Only statements; every proof is `exact <lemma of Proofs/DeserProofs.v>`. *)
 From Coq Require Import String.
 From XSG.Model Require Import Strings Convert Necessity Element Dom Spec Render Deser.
@@ -37,20 +50,46 @@ Proof. exact wf_vnode_elem. Qed.
 Theorem C02_wf_vnode_erase : forall v, wf_vnode v -> wf_node (erase_v v).
 Proof. exact wf_vnode_erase. Qed.
 
-(* `eff ef ks`: the content of the empty form <n/> is empty *)
+(* `eff ef ks`: the content of the empty form <n/> is empty.  The property's hypothesis: beside
+   a child element every Text / CDATA piece is blank (`is_nil (trim_start t)`: only white space) *)
 Theorem C02_data_oriented_reading : forall n ef attrs ks,
   data_oriented (VElem n ef attrs ks) <->
-  (velems (eff ef ks) <> [] -> text_runs (eff ef ks) = [])
+  (velems (eff ef ks) <> [] ->
+   forall t, In (VText t) (eff ef ks) \/ In (VCData t) (eff ef ks) -> is_nil (trim_start t) = true)
   /\ Forall data_oriented (eff ef ks).
 Proof. exact data_oriented_elem. Qed.
 
+Theorem C02_blank_reading : forall t, is_nil (trim_start t) = true <-> forallb is_ws t = true.
+Proof. exact blank_iff. Qed.
+
+(* what the proofs use: beside a child element the reader delivers no character data *)
+Theorem C02_no_text_beside_reading : forall vb n ef attrs ks,
+  no_text_beside vb (VElem n ef attrs ks) <->
+  (velems (eff ef ks) <> [] -> text_runs vb (eff ef ks) = [])
+  /\ Forall (no_text_beside vb) (eff ef ks).
+Proof. exact no_text_beside_elem. Qed.
+
+(* the known class K3: a child element and a CDATA section in the same element, somewhere *)
+Theorem C02_known_k3_reading : forall n ef attrs ks,
+  known_k3_b (VElem n ef attrs ks) =
+  (has_velem (eff ef ks) && existsb is_vcdata (eff ef ks)) || existsb known_k3_b (eff ef ks).
+Proof. exact known_k3_elem. Qed.
+
+Theorem C02_data_oriented_qx : forall v,
+  data_oriented v -> known_k3_b v = false -> no_text_beside true v.
+Proof. exact data_oriented_qx. Qed.
+
+Theorem C02_data_oriented_sx : forall v, data_oriented v -> no_text_beside false v.
+Proof. exact data_oriented_sx. Qed.
+
 (* an element without child elements has at most one run of character data ... *)
-Theorem C02_text_runs_single : forall ks, velems ks = [] -> (List.length (text_runs ks) <= 1)%nat.
+Theorem C02_text_runs_single : forall vb ks,
+  velems ks = [] -> (List.length (text_runs vb ks) <= 1)%nat.
 Proof. exact text_runs_single. Qed.
 
-(* ... hence every element of a data-oriented document *)
-Theorem C02_data_oriented_runs : forall ks,
-  (velems ks <> [] -> text_runs ks = []) -> (List.length (text_runs ks) <= 1)%nat.
+(* ... hence every element of a document with `no_text_beside` *)
+Theorem C02_data_oriented_runs : forall vb ks,
+  (velems ks <> [] -> text_runs vb ks = []) -> (List.length (text_runs vb ks) <= 1)%nat.
 Proof. exact data_oriented_runs. Qed.
 
 (* ---------- the theorems ---------- *)
@@ -60,6 +99,7 @@ Theorem C02_accepts : forall vdocs m e,
   run_dom (map (map erase_v) vdocs) = Some e ->
   clash_free_tree e = true -> names_plain e = true ->
   Forall (Forall data_oriented) vdocs ->
+  Forall (Forall (fun v => known_k3_b v = false)) vdocs ->
   forall deny vd, In vd vdocs ->
     exists v, de_doc qx_flavour (render_abs quick_xml_de e) deny vd = Some v.
 Proof. exact qx_accepts. Qed.
@@ -70,9 +110,10 @@ Theorem C02_holds_all : forall vdocs m e,
   run_dom (map (map erase_v) vdocs) = Some e ->
   clash_free_tree e = true -> names_plain e = true ->
   Forall (Forall data_oriented) vdocs ->
+  Forall (Forall (fun v => known_k3_b v = false)) vdocs ->
   forall deny vd v, In vd vdocs ->
     de_doc qx_flavour (render_abs quick_xml_de e) deny vd = Some v ->
-    incl (flat_map doc_values vd) (leaves v).
+    incl (flat_map (doc_values true) vd) (leaves v).
 Proof. exact qx_holds_all. Qed.
 
 Theorem C02_accepts_holds : forall vdocs m e,
@@ -81,37 +122,41 @@ Theorem C02_accepts_holds : forall vdocs m e,
   run_dom (map (map erase_v) vdocs) = Some e ->
   clash_free_tree e = true -> names_plain e = true ->
   Forall (Forall data_oriented) vdocs ->
+  Forall (Forall (fun v => known_k3_b v = false)) vdocs ->
   forall deny vd, In vd vdocs ->
     exists v, de_doc qx_flavour (render_abs quick_xml_de e) deny vd = Some v
-              /\ incl (flat_map doc_values vd) (leaves v).
+              /\ incl (flat_map (doc_values true) vd) (leaves v).
 Proof. exact qx_accepts_holds. Qed.
 
 (* tree level: any document whose root element the tree admits *)
 Theorem C02_accepts_tree : forall e deny vd nd,
   clash_free_tree e = true -> names_plain e = true ->
-  vdoc_root vd = Some nd -> TreeAdmits e (erase_v nd) -> wf_vnode nd -> data_oriented nd ->
+  vdoc_root vd = Some nd -> TreeAdmits e (erase_v nd) -> wf_vnode nd ->
+  data_oriented nd -> known_k3_b nd = false ->
   exists v, de_doc qx_flavour (render_abs quick_xml_de e) deny vd = Some v
-            /\ incl (doc_values nd) (leaves v).
+            /\ incl (doc_values true nd) (leaves v).
 Proof. exact qx_accepts_tree. Qed.
 
 (* ---------- the core, for both flavours ---------- *)
 (* what the value is shown to hold: the attribute values, the character data of elements typed
-   String (`st`) and — when `keep` — of struct-typed elements too, hereditarily *)
-Theorem C02_held_reading : forall keep st x n ef attrs kids0,
-  held keep st x (VElem n ef attrs kids0) =
+   String (`st`) and — when `keep` — of struct-typed elements too, hereditarily; `vb`: the
+   character data as the reader of the flavour delivers it *)
+Theorem C02_held_reading : forall vb keep st x n ef attrs kids0,
+  held vb keep st x (VElem n ef attrs kids0) =
   map snd attrs
-  ++ (if keep || st then text_runs (eff ef kids0) else [])
+  ++ (if keep || st then text_runs vb (eff ef kids0) else [])
   ++ flat_map (fun k => match k with
                         | VElem m _ _ _ =>
                             match get_child (echildren x) m with
-                            | Some c => held keep (contains_only_text (snd c)) (snd c) k
+                            | Some c => held vb keep (contains_only_text (snd c)) (snd c) k
                             | None => []
                             end
                         | _ => []
                         end) (eff ef kids0).
 Proof. exact held_elem. Qed.
 
-Theorem C02_held_all : forall v x st, TreeAdmits x (erase_v v) -> incl (doc_values v) (held true st x v).
+Theorem C02_held_all : forall vb v x st,
+  TreeAdmits x (erase_v v) -> incl (doc_values vb v) (held vb true st x v).
 Proof. exact held_all. Qed.
 
 (* the three key spaces of the struct of a node are apart, hereditarily *)
@@ -135,8 +180,9 @@ Theorem C02_core : forall fl o deny keep e vd nd,
   (keep = true -> text_identifier o = fl_text_key fl) ->
   clash_free_tree e = true -> KeysOK fl o e ->
   vdoc_root vd = Some nd -> TreeAdmits e (erase_v nd) ->
-  wf_vnode nd -> data_oriented nd -> (fl_overlapped fl = true \/ adjacent_doc nd) ->
-  exists v, de_doc fl (render_abs o e) deny vd = Some v /\ incl (held keep false e nd) (leaves v).
+  wf_vnode nd -> no_text_beside (fl_verbatim fl) nd -> (fl_overlapped fl = true \/ adjacent_doc nd) ->
+  exists v, de_doc fl (render_abs o e) deny vd = Some v
+            /\ incl (held (fl_verbatim fl) keep false e nd) (leaves v).
 Proof. exact de_doc_tree. Qed.
 
 (* ---------- examples ---------- *)
@@ -148,6 +194,7 @@ Example C02_example_hypotheses :
   vx_docs <> [] /\ Forall (Forall wf_vnode) vx_docs
   /\ Forall (fun p => elem_names (map erase_v p) = [s "r"]) vx_docs
   /\ Forall (Forall data_oriented) vx_docs
+  /\ Forall (Forall (fun v => known_k3_b v = false)) vx_docs
   /\ exists e, run_dom (map (map erase_v) vx_docs) = Some e
                /\ clash_free_tree e = true /\ names_plain e = true.
 Proof. exact vx_hypotheses. Qed.
@@ -155,7 +202,7 @@ Proof. exact vx_hypotheses. Qed.
 Example C02_example_theorem_applies : forall e, run_dom (map (map erase_v) vx_docs) = Some e ->
   forall deny vd, In vd vx_docs ->
     exists v, de_doc qx_flavour (render_abs quick_xml_de e) deny vd = Some v
-              /\ incl (flat_map doc_values vd) (leaves v).
+              /\ incl (flat_map (doc_values true) vd) (leaves v).
 Proof. exact vx_theorem_applies. Qed.
 
 Example C02_example_values_deny :
@@ -176,7 +223,7 @@ Example C02_example_values_deny :
 Proof. exact vx_values_deny. Qed.
 
 Example C02_example_doc_values :
-  map (flat_map doc_values) vx_docs
+  map (flat_map (doc_values true)) vx_docs
   = [[s "1"; s "hello world"; s "v"; s "w"]; [s "2"; s "en"; s "x"; s "x  raw  y"]].
 Proof. exact vx_doc_values. Qed.
 
@@ -206,9 +253,36 @@ Example C02_needs_data_oriented :
   end = (true, true, false, None).
 Proof. exact vx_needs_data_oriented. Qed.
 
+(* the known finding K3, the witness: k3_node = <a><![CDATA[ ]]><b/><![CDATA[ ]]></a> is
+   data-oriented and well-formed, in the class K3, and rejected by quick_xml::de *)
+Example C02_known_k3_witness :
+  let w := VElem (s "a") false [] [VCData (s " "); VElem (s "b") true [] []; VCData (s " ")] in
+  exists e, run_dom [[erase_v w]] = Some e
+            /\ data_oriented w /\ wf_vnode w /\ known_k3_b w = true
+            /\ de_doc qx_flavour (render_abs quick_xml_de e) false [w] = None.
+Proof. exact known_k3_witness. Qed.
+
+(* there: quick_xml::de gets two runs, serde-xml-rs none (and accepts) *)
+Example C02_known_k3_runs :
+  match k3_node with
+  | VElem _ _ _ ks => (text_runs true ks, text_runs false ks)
+  | _ => ([], [])
+  end = ([s " "; s " "], [])
+  /\ no_text_beside_b true k3_node = false /\ no_text_beside_b false k3_node = true
+  /\ match run_dom [[erase_v k3_node]] with
+     | Some e => de_doc sx_flavour (render_abs serde_xml_rs e) false [k3_node]
+     | None => None
+     end = Some (FStruct [(s "text", FNone); (s "b", FStruct [])]).
+Proof. exact known_k3_runs. Qed.
+
 Print Assumptions C02_wf_vnode_reading.
 Print Assumptions C02_wf_vnode_erase.
 Print Assumptions C02_data_oriented_reading.
+Print Assumptions C02_blank_reading.
+Print Assumptions C02_no_text_beside_reading.
+Print Assumptions C02_known_k3_reading.
+Print Assumptions C02_data_oriented_qx.
+Print Assumptions C02_data_oriented_sx.
 Print Assumptions C02_text_runs_single.
 Print Assumptions C02_data_oriented_runs.
 Print Assumptions C02_accepts.
@@ -227,3 +301,5 @@ Print Assumptions C02_example_doc_values.
 Print Assumptions C02_example_damaged_rejected.
 Print Assumptions C02_example_damaged2_rejected.
 Print Assumptions C02_needs_data_oriented.
+Print Assumptions C02_known_k3_witness.
+Print Assumptions C02_known_k3_runs.
